@@ -69,6 +69,13 @@ def seeds():
     out.append(("string_len_beyond_category", image(2048, 0xFF, w, b)))
     w, b = chain([(STRINGS, 0, None), (GENERAL, 16, [1, 2, 3, 4] + [0] * 28), (END, 0, None)])
     out.append(("strings_empty_category", image(2048, 0xFF, w, b)))
+    # a strings category shorter than what is read from it byte by byte, followed by data that reads as a string
+    w, b = chain([(STRINGS, 0, None), (0x0801, 4, [5, 65, 66, 67, 68, 69, 0, 0]), (GENERAL, 16, [1, 1, 1, 1] + [0] * 28), (END, 0, None)])
+    out.append(("strings_len0_then_data", image(2048, 0xFF, w, b)))
+    w, b = chain([(STRINGS, 1, [1, 9]), (0x0801, 4, [65, 66, 67, 68, 69, 70, 71, 72]), (GENERAL, 16, [1, 1, 1, 1] + [0] * 28), (END, 0, None)])
+    out.append(("strings_len1_string_beyond", image(2048, 0xFF, w, b)))
+    w, b = chain([(STRINGS, 1, [2, 0]), (0x0809, 4, [3, 66, 67, 68, 69, 70, 71, 72]), (GENERAL, 16, [2, 2, 2, 2] + [0] * 28), (END, 0, None)])
+    out.append(("strings_second_beyond", image(2048, 0xFF, w, b)))
     # truncated categories: items cut mid-way
     w, b = chain([(SM, 3, [0, 0x11, 2, 0, 0x64, 0]), (END, 0, None)])
     out.append(("sm_truncated", image(2048, 0xFF, w, b)))
@@ -107,7 +114,7 @@ def random_image(rnd):
         return image(length, fill, [], [[rnd.choice([0, 0x70, 0x80]), [rnd.randint(0, 255) for _ in range(n)]]])
     cats = []
     for _ in range(rnd.randint(1, 12)):
-        ty = rnd.choice(KNOWN + KNOWN + [1, 2, 0x0800, 0x7FFF, rnd.randint(0, 0xFFFE)])
+        ty = rnd.choice(KNOWN + KNOWN + [STRINGS, 1, 2, 0x0800, 0x0801, 0x7FFF, rnd.randint(0, 0xFFFE)])
         ln = rnd.choice([0, 0, 1, 2, 3, 4, 8, 16, 17, 64, rnd.randint(0, 300), 0x7FFF, 0x8000, 0xFFFE, 0xFFFF])
         dl = min(ln * 2, 700)
         data = [rnd.choice([0, 1, 2, 3, 8, 16, 255, rnd.randint(0, 255)]) for _ in range(dl)]
